@@ -1,9 +1,27 @@
+/-
+  QV.Proofs.Encodings — lemmas behind the C20 property theorems (QV/Props/C20*.lean).
+  Model: QV/Model/Encodings.lean (gate lists of the library constructors) executed by the
+  simulator model QV/Model/Sim.lean over an arbitrary commutative ring.
+
+    * pointwise action of X, CNOT, H, CU1, SWAP, RBS (`applyGate_*`)
+    * comp_basis_encoder, ghz_state                      (`runCircuit_compBasisFrom`, `runCircuit_ghz`)
+    * RBS on one-hot states; diagonal unary loader        (`rbs_ket_*`, `runCircuit_diagChain`)
+    * QFT: product form by induction over the ladders     (`runCircuit_qftBody`), swaps = reversal
+      (`runCircuit_qftSwaps`), product form = DFT entry  (`phase_eq_pow`, `prod_fac_rev`, `qft_dft`)
+    * QFT gate-list structure                             (`length_qftBody`, `mem_qftBody`)
+    * Ehrlich step and run                                (`nextBits_move`, `ehrlichLoop_chain`)
+    * loading chains of controlled RBS gates              (`chain_loader`, `crbs_chain`)
+    * RBS networks on the one-hot subspace                (`rbs_ohState`, `runCircuit_rbs_network`)
+-/
 import Mathlib.Algebra.Ring.Defs
 import Mathlib.Tactic.Ring
 import Mathlib.Tactic.Linarith
 import Mathlib.Algebra.BigOperators.Intervals
 import QV.Proofs.SimLemmas
 import QV.Model.Encodings
+
+set_option linter.unusedSimpArgs false
+set_option linter.unnecessarySeqFocus false
 
 namespace QV.Enc
 open QV
@@ -1057,5 +1075,318 @@ theorem weight_defaultInit (n k : Nat) : weight (defaultInit n k) = k := by
 
 def ehrlichOKUpTo (N : Nat) : Bool :=
   (List.range (N + 1)).all (fun n => (List.range n).all (fun k => k == 0 || ehrlichOK n k))
+
+/-! ### generic amplitude-loading chain (Hamming-weight encoder, real data) -/
+
+/-- state after `m` steps of a loading chain through the basis labels `v 0, v 1, …`. -/
+noncomputable def chainState (P : Par α) (v : Nat → Lab) (m : Nat) : Lab → α := fun x =>
+  (∑ k ∈ range m, ((∏ j ∈ range k, P.s j) * P.c k) * ket (v k) x)
+    + (∏ j ∈ range m, P.s j) * ket (v m) x
+
+theorem chain_loader (P : Par α) (G : Nat → MGate α) (v : Nat → Lab) (m : Nat)
+    (hstep : ∀ k, k < m → applyGate (G k) (ket (v k))
+      = fun x => P.c k * ket (v k) x + P.s k * ket (v (k + 1)) x)
+    (hfix : ∀ k, k < m → ∀ j, j < k → applyGate (G k) (ket (v j)) = ket (v j)) :
+    runCircuit ((List.range m).map G) (ket (v 0)) = chainState P v m := by
+  induction m with
+  | zero => funext x; simp [runCircuit, chainState]
+  | succ m ih =>
+    rw [List.range_succ, List.map_append, runCircuit_append,
+      ih (fun k hk => hstep k (by omega)) (fun k hk => hfix k (by omega))]
+    simp only [List.map_cons, List.map_nil, runCircuit_cons, runCircuit_nil]
+    have e1 : chainState P v m = fun x =>
+        (fun x => ∑ k ∈ range m, (fun k x => ((∏ j ∈ range k, P.s j) * P.c k) * ket (v k) x) k x) x
+        + (fun x => (∏ j ∈ range m, P.s j) * ket (v m) x) x := rfl
+    rw [e1, applyGate_add, applyGate_sum, applyGate_smul]
+    funext x
+    have e2 : ∀ k ∈ range m,
+        applyGate (G m) (fun x => ((∏ j ∈ range k, P.s j) * P.c k) * ket (v k) x) x
+          = ((∏ j ∈ range k, P.s j) * P.c k) * ket (v k) x := by
+      intro k hk
+      rw [applyGate_smul, hfix m (by omega) k (mem_range.mp hk)]
+    simp only []
+    rw [sum_congr rfl e2, hstep m (by omega)]
+    simp only [chainState]
+    rw [sum_range_succ, prod_range_succ]
+    ring
+
+/-- a gate with extra controls acts as the uncontrolled gate where all controls are 1. -/
+theorem applyGate_controls (g : MGate α) (ψ : Lab → α) (x : Lab) :
+    applyGate g ψ x = if Lab.allOne g.controls x then applyGate { g with controls := [] } ψ x else ψ x := by
+  unfold applyGate
+  by_cases h : Lab.allOne g.controls x = true
+  · simp [Lab.allOne]
+  · simp [h]
+
+theorem allOne_sw {a b : Nat} (hab : a ≠ b) {cs : List Nat} (ha : a ∉ cs) (hb : b ∉ cs) (x : Lab) :
+    Lab.allOne cs (sw a b x) = Lab.allOne cs x := by
+  apply Lab.allOne_congr
+  intro r hr
+  rw [sw_apply hab]
+  have h1 : r ≠ b := fun h => hb (h ▸ hr)
+  have h2 : r ≠ a := fun h => ha (h ▸ hr)
+  simp [h1, h2]
+
+theorem sw_eq_iff {a b : Nat} (hab : a ≠ b) (x v : Lab) : sw a b x = v ↔ x = sw a b v := by
+  constructor
+  · intro h; rw [← h, sw_sw hab]
+  · intro h; rw [h, sw_sw hab]
+
+section crbs
+variable (c s : α) {a b : Nat} (hab : a ≠ b) {cs : List Nat} (ha : a ∉ cs) (hb : b ∉ cs)
+include hab ha hb
+
+/-- a controlled RBS leaves `|v⟩` alone when a control of `v` is off or its two target bits
+are equal. -/
+theorem crbs_ket_fix (v : Lab) (h : Lab.allOne cs v = false ∨ v a = v b) :
+    applyGate ({ mat := matRBS c s, targets := [a, b], controls := cs } : MGate α) (ket v) = ket v := by
+  classical
+  funext x
+  rw [applyGate_controls]
+  by_cases hc : Lab.allOne cs x = true
+  · rw [if_pos hc]
+    show applyGate ({ mat := matRBS c s, targets := [a, b], controls := [] } : MGate α) (ket v) x = _
+    rw [applyGate_RBS hab]
+    split
+    · rfl
+    · rename_i hne
+      have hx : x ≠ v := by
+        intro e; subst e
+        rcases h with h | h
+        · rw [h] at hc; exact Bool.false_ne_true hc
+        · exact hne h
+      have hsx : sw a b x ≠ v := by
+        intro e
+        rcases h with h | h
+        · have := allOne_sw hab ha hb x
+          rw [e, h, hc] at this; exact Bool.false_ne_true this
+        · apply hne
+          have e1 := congrFun e a
+          have e2 := congrFun e b
+          rw [sw_apply hab] at e1 e2
+          simp [hab] at e1 e2
+          rw [e1, e2, h]
+      have hsx' : (x.set a (x b)).set b (x a) ≠ v := hsx
+      rw [ket_apply, ket_apply, if_neg hx, if_neg hsx']; simp
+  · rw [if_neg hc]
+
+/-- on a label with all controls on, source bit 1 and destination bit 0 it moves the
+excitation with amplitudes `cos` (stay) and `sin` (move). -/
+theorem crbs_ket_move (v : Lab) (hon : Lab.allOne cs v = true) (hva : v a = true) (hvb : v b = false) :
+    applyGate ({ mat := matRBS c s, targets := [a, b], controls := cs } : MGate α) (ket v)
+      = fun x => c * ket v x + s * ket (sw a b v) x := by
+  classical
+  funext x
+  rw [applyGate_controls]
+  have hsv : Lab.allOne cs (sw a b v) = true := by rw [allOne_sw hab ha hb]; exact hon
+  have hsva : sw a b v a = false := by rw [sw_apply hab]; simp [hab, hvb]
+  have hsvb : sw a b v b = true := by rw [sw_apply hab]; simp [hva]
+  by_cases hc : Lab.allOne cs x = true
+  · rw [if_pos hc]
+    show applyGate ({ mat := matRBS c s, targets := [a, b], controls := [] } : MGate α) (ket v) x = _
+    rw [applyGate_RBS hab]
+    have hswx : ((x.set a (x b)).set b (x a) = v) ↔ x = sw a b v := sw_eq_iff hab x v
+    split
+    · rename_i heq
+      have h1 : x ≠ v := by intro e; subst e; rw [hva, hvb] at heq; exact Bool.noConfusion heq
+      have h2 : x ≠ sw a b v := by intro e; subst e; rw [hsva, hsvb] at heq; exact Bool.noConfusion heq
+      rw [ket_apply, ket_apply, if_neg h1, if_neg h2]; simp
+    · rename_i hne
+      cases hxb : x b
+      · have h2 : x ≠ sw a b v := by intro e; rw [e, hsvb] at hxb; exact Bool.noConfusion hxb
+        have h3 : ¬ ((x.set a (x b)).set b (x a) = v) := fun h => h2 (hswx.mp h)
+        rw [hxb] at h3
+        simp only [ket_apply, if_neg h2, if_neg h3]; simp
+      · have hxa : x a = false := by
+          cases h : x a
+          · rfl
+          · exfalso; apply hne; rw [h, hxb]
+        have h1 : x ≠ v := by intro e; rw [e, hva] at hxa; exact Bool.noConfusion hxa
+        by_cases h2 : x = sw a b v
+        · have h3 : (x.set a (x b)).set b (x a) = v := hswx.mpr h2
+          rw [hxb, hxa] at h3
+          simp only [ket_apply, hxa, if_neg h1, if_pos h2, if_pos h3]; simp
+        · have h3 : ¬ ((x.set a (x b)).set b (x a) = v) := fun h => h2 (hswx.mp h)
+          rw [hxb, hxa] at h3
+          simp only [ket_apply, hxa, if_neg h1, if_neg h2, if_neg h3]; simp
+  · rw [if_neg hc]
+    have h1 : x ≠ v := by intro e; subst e; exact hc hon
+    have h2 : x ≠ sw a b v := by intro e; subst e; exact hc hsv
+    simp only [ket_apply, if_neg h1, if_neg h2]; simp
+
+end crbs
+
+/-- **Loading chain of controlled RBS gates** (the circuit shape of `hamming_weight_encoder`
+for real data): gate `k` is `RBS(a k, b k, θ_k)` controlled on `cs k`; the labels `v k` are
+the visited basis states. -/
+theorem crbs_chain (P : Par α) (a b : Nat → Nat) (cs : Nat → List Nat) (v : Nat → Lab) (m : Nat)
+    (hab : ∀ k, k < m → a k ≠ b k)
+    (hdis : ∀ k, k < m → a k ∉ cs k ∧ b k ∉ cs k)
+    (hon : ∀ k, k < m → Lab.allOne (cs k) (v k) = true ∧ v k (a k) = true ∧ v k (b k) = false)
+    (hnext : ∀ k, k < m → v (k + 1) = sw (a k) (b k) (v k))
+    (hfix : ∀ k, k < m → ∀ j, j < k → Lab.allOne (cs k) (v j) = false ∨ v j (a k) = v j (b k)) :
+    runCircuit ((List.range m).map
+        (fun k => GD.sem P { kind := .RBS, q0 := a k, q1 := b k, e := k, ctrl := cs k })) (ket (v 0))
+      = chainState P v m := by
+  apply chain_loader P _ v m
+  · intro k hk
+    obtain ⟨h1, h2, h3⟩ := hon k hk
+    show applyGate ({ mat := matRBS (P.c k) (P.s k), targets := [a k, b k], controls := cs k } : MGate α) _ = _
+    rw [crbs_ket_move (P.c k) (P.s k) (hab k hk) (hdis k hk).1 (hdis k hk).2 (v k) h1 h2 h3, hnext k hk]
+  · intro k hk j hj
+    exact crbs_ket_fix (P.c k) (P.s k) (hab k hk) (hdis k hk).1 (hdis k hk).2 (v j) (hfix k hk j hj)
+
+
+/-- with partial norms `r` (`r k · c k = x k`, `r k · s k = r (k+1)`, `r m = x m`) the chain
+state is the normalised data: `r 0 · state = Σ_k x_k |v k⟩`. -/
+theorem chainState_norm (P : Par α) (v : Nat → Lab) (m : Nat) (x r : Nat → α)
+    (hlast : r m = x m)
+    (hc : ∀ k, k < m → r k * P.c k = x k)
+    (hs : ∀ k, k < m → r k * P.s k = r (k + 1)) (y : Lab) :
+    r 0 * chainState P v m y = ∑ k ∈ range (m + 1), x k * ket (v k) y := by
+  rw [sum_range_succ]
+  have hp := norm_prod P r m hs
+  unfold chainState
+  rw [mul_add, mul_sum]
+  congr 1
+  · apply sum_congr rfl
+    intro k hk
+    have hk' : k < m := mem_range.mp hk
+    rw [← hc k hk', ← hp k (by omega)]
+    ring
+  · rw [← hlast, ← hp m (le_refl _)]
+    ring
+
+/-! ### RBS networks act on the one-hot subspace by Givens rotations -/
+
+theorem rbs_ket_snd {a b : Nat} (hab : a ≠ b) (c s : α) :
+    applyGate ({ mat := matRBS c s, targets := [a, b], controls := [] } : MGate α) (ket (oh b))
+      = fun x => c * ket (oh b) x - s * ket (oh a) x := by
+  classical
+  funext x
+  rw [applyGate_RBS hab]
+  have hsw : ((x.set a (x b)).set b (x a) = oh b) ↔ x = oh a := by
+    have := sw_eq_iff hab x (oh b)
+    rw [sw_oh_snd hab] at this
+    exact this
+  split
+  · rename_i heq
+    have h1 : x ≠ oh a := by
+      intro h; rw [h] at heq; simp [oh, Ne.symm hab] at heq
+    have h2 : x ≠ oh b := by
+      intro h; rw [h] at heq; simp [oh, hab] at heq
+    rw [ket_apply, ket_apply, if_neg h1, if_neg h2]; simp
+  · rename_i hne
+    cases hb : x b
+    · have ha : x a = true := by
+        cases h : x a
+        · exfalso; apply hne; rw [h, hb]
+        · rfl
+      have h1 : x ≠ oh b := by
+        intro h; rw [h] at hb; simp [oh] at hb
+      by_cases h2 : x = oh a
+      · have h3 : (x.set a (x b)).set b (x a) = oh b := hsw.mpr h2
+        rw [hb, ha] at h3
+        simp only [ket_apply, ha, if_neg h1, if_pos h2, if_pos h3]; simp
+      · have h3 : ¬ ((x.set a (x b)).set b (x a) = oh b) := fun h => h2 (hsw.mp h)
+        rw [hb, ha] at h3
+        simp only [ket_apply, ha, if_neg h1, if_neg h2, if_neg h3]; simp
+    · have ha : x a = false := by
+        cases h : x a
+        · rfl
+        · exfalso; apply hne; rw [h, hb]
+      have h2 : x ≠ oh a := by
+        intro h; rw [h] at ha; simp [oh] at ha
+      have h3 : ¬ ((x.set a (x b)).set b (x a) = oh b) := fun h => h2 (hsw.mp h)
+      rw [hb, ha] at h3
+      simp only [ket_apply, ha, if_neg h2, if_neg h3]; simp
+
+/-- superposition of one-hot states of the qubits `< n` with amplitude vector `A`. -/
+noncomputable def ohState (n : Nat) (A : Nat → α) : Lab → α :=
+  fun x => ∑ q ∈ range n, A q * ket (oh q) x
+
+/-- Givens rotation of the amplitude vector in the plane `(a, b)`. -/
+def rot (a b : Nat) (c s : α) (A : Nat → α) : Nat → α :=
+  fun q => if q = a then c * A a - s * A b else if q = b then s * A a + c * A b else A q
+
+theorem sum_eq_of_pair {f g : Nat → α} {a b n : Nat} (hab : a ≠ b) (ha : a < n) (hb : b < n)
+    (hother : ∀ q, q ≠ a → q ≠ b → f q = g q) (hpair : f a + f b = g a + g b) :
+    ∑ q ∈ range n, f q = ∑ q ∈ range n, g q := by
+  have ha' : a ∈ range n := mem_range.mpr ha
+  have hb' : b ∈ (range n).erase a := mem_erase.mpr ⟨Ne.symm hab, mem_range.mpr hb⟩
+  rw [← add_sum_erase _ f ha', ← add_sum_erase _ g ha', ← add_sum_erase _ f hb', ← add_sum_erase _ g hb']
+  have : ∑ q ∈ ((range n).erase a).erase b, f q = ∑ q ∈ ((range n).erase a).erase b, g q := by
+    apply sum_congr rfl
+    intro q hq
+    have h1 := (mem_erase.mp hq).1
+    have h2 := (mem_erase.mp (mem_erase.mp hq).2).1
+    exact hother q h2 h1
+  rw [this, ← add_assoc, ← add_assoc, hpair]
+
+theorem rbs_ohState {a b n : Nat} (hab : a ≠ b) (ha : a < n) (hb : b < n) (c s : α) (A : Nat → α) :
+    applyGate ({ mat := matRBS c s, targets := [a, b], controls := [] } : MGate α) (ohState n A)
+      = ohState n (rot a b c s A) := by
+  have e1 : ohState n A = fun x => ∑ q ∈ range n, (fun q x => A q * ket (oh q) x) q x := rfl
+  rw [e1, applyGate_sum]
+  funext x
+  simp only [applyGate_smul]
+  unfold ohState
+  apply sum_eq_of_pair hab ha hb
+  · intro q hqa hqb
+    rw [rbs_ket_other hab hqa hqb]
+    simp [rot, hqa, hqb]
+  · rw [rbs_ket_fst hab, rbs_ket_snd hab]
+    simp only [rot, if_true, if_neg (Ne.symm hab)]
+    ring
+
+/-- amplitude-vector semantics of a list of RBS descriptors. -/
+def runAmps (P : Par α) (gs : List GD) (A : Nat → α) : Nat → α :=
+  gs.foldl (fun A g => rot g.q0 g.q1 (P.c g.e) (P.s g.e) A) A
+
+/-- **Any network of RBS gates** on qubits `< n` maps the one-hot superposition with
+amplitudes `A` to the one with amplitudes `runAmps gs A` (an `n`-dimensional computation). -/
+theorem runCircuit_rbs_network (P : Par α) (n : Nat) (gs : List GD)
+    (hgs : ∀ g ∈ gs, g.kind = .RBS ∧ g.ctrl = [] ∧ g.q0 ≠ g.q1 ∧ g.q0 < n ∧ g.q1 < n)
+    (A : Nat → α) :
+    runCircuit (gs.map (GD.sem P)) (ohState n A) = ohState n (runAmps P gs A) := by
+  induction gs generalizing A with
+  | nil => rfl
+  | cons g gs ih =>
+    obtain ⟨hk, hc, hne, h0, h1⟩ := hgs g (List.mem_cons_self)
+    rw [List.map_cons, runCircuit_cons]
+    have : GD.sem P g = ({ mat := matRBS (P.c g.e) (P.s g.e), targets := [g.q0, g.q1], controls := [] } : MGate α) := by
+      unfold GD.sem; rw [hk, hc]
+    rw [this, rbs_ohState hne h0 h1]
+    exact ih (fun g' hg' => hgs g' (List.mem_cons_of_mem _ hg')) _
+
+theorem ket_oh_eq_ohState {n q : Nat} (hq : q < n) :
+    (ket (oh q) : Lab → α) = ohState n (fun r => if r = q then 1 else 0) := by
+  funext x
+  unfold ohState
+  simp only [ite_mul, one_mul, zero_mul]
+  rw [sum_ite_eq' (range n) q, if_pos (mem_range.mpr hq)]
+
+
+theorem mem_zipWith_imp {A B C : Type} {f : A → B → C} {l1 : List A} {l2 : List B} {c : C}
+    (h : c ∈ List.zipWith f l1 l2) : ∃ a b, b ∈ l2 ∧ c = f a b := by
+  induction l1 generalizing l2 with
+  | nil => simp at h
+  | cons a l1 ih =>
+    cases l2 with
+    | nil => simp at h
+    | cons b l2 =>
+      rw [List.zipWith_cons_cons, List.mem_cons] at h
+      rcases h with h | h
+      · exact ⟨a, b, List.mem_cons_self, h⟩
+      · obtain ⟨a', b', hb', hc⟩ := ih h
+        exact ⟨a', b', List.mem_cons_of_mem _ hb', hc⟩
+
+theorem rbsGates_valid {n : Nat} {pairs : List (Nat × Nat)}
+    (hp : ∀ p ∈ pairs, p.1 ≠ p.2 ∧ p.1 < n ∧ p.2 < n) :
+    ∀ g ∈ rbsGates pairs, g.kind = .RBS ∧ g.ctrl = [] ∧ g.q0 ≠ g.q1 ∧ g.q0 < n ∧ g.q1 < n := by
+  intro g hg
+  obtain ⟨e, p, hpm, rfl⟩ := mem_zipWith_imp hg
+  obtain ⟨h1, h2, h3⟩ := hp p hpm
+  exact ⟨rfl, rfl, h1, h2, h3⟩
 
 end QV.Enc
